@@ -97,10 +97,10 @@ def verifyStrict (M A sig : Bytes) : Bool := verifyWith decodeStrict M A sig
 def edwardsToMontgomeryU (y : Nat) : Nat :=
   Field25519.mul (Field25519.add 1 y) (Field25519.inv (Field25519.sub 1 y))
 
-/-- X25519 between the Ed25519 secret `seed` (its hashed, pruned scalar) and the Ed25519 public key `pk`
-    mapped to Montgomery form -/
+/-- X25519 between the Ed25519 secret `seed` (its hashed, pruned scalar `s` of §5.1.5; X25519 prunes again,
+    which changes nothing) and the Ed25519 public key `pk` mapped to Montgomery form -/
 def exchange (pk seed : Bytes) : Bytes :=
-  X25519.x25519 ((H seed).take 32)
+  X25519.x25519 (clamp ((H seed).take 32))
     (Field25519.encode (edwardsToMontgomeryU (Field25519.decode pk)))
 
 end Cx.Spec.Ed25519
